@@ -1955,7 +1955,13 @@ def trusted_base(prop):
 def partial_clauses(prop):
     return [
         "C07 (all clauses): proved for the effect skeletons of Heap/Effects.v; that each API function performs exactly its "
-        "skeleton's writes (deepcopy allocates, readers do not write) is checked at run time, not proved",
+        "skeleton's writes (deepcopy allocates, readers do not write) is checked at run time, not proved.  Tightened by "
+        "refinement through Heap/Abs.v: copy / deepcopy (C07_copy_WF, C07_copy_refines), get_subtree incl. max_depth "
+        "(C07_get_subtree_refines, C07_get_subtree_agrees against Algo/Helper.v), prune_tree by depth "
+        "(C07_prune_refines_depth, C07_depth_cut_refines), tree_to_dict (C07_export_refines against Algo/Export.v) and the "
+        "write set of shift_nodes for one pair (C07_shift_nodes_writes) compute, on well-formed heaps, the same rose trees as "
+        "the algorithm models.  NOT refined: clone_tree (recursive allocation), prune_tree by prune paths (position/id "
+        "correspondence of filter_tree), get_tree_diff, the copy_nodes option variants, the other exporters, BinaryNode slots",
         "sep and path_name of every input node are part of the signature; get_tree_diff overwrites other_tree.sep "
         "(helper.py:336): known finding K7-C07, matched only when the input is other_tree, the separators differ and nothing "
         "but sep / path_name changed",
